@@ -510,6 +510,18 @@ func run(id, tier, replay string) int {
 					continue
 				}
 			}
+			// The case may not fail when replayed alone (a panic in one of the
+			// library's background goroutines depends on timing), but a panic whose
+			// goroutine has frames of the library under test took the process down
+			// twice (the shard was started again once): that is the library's doing.
+			if msg := libraryPanic(string(logb)); msg != "" && !r.timedOut {
+				dst := filepath.Join(newDir(), fmt.Sprintf("%s-died-s%s-%d.json", id, seed(), i))
+				if _, err := os.Stat(dst); err != nil {
+					dst = "(no case file)"
+				}
+				viols = append(viols, violation{Replay: dst, Msg: "a goroutine of the library panicked and killed the process (the case that was running does not fail when replayed alone):\n" + msg})
+				continue
+			}
 			why := "shard " + strconv.Itoa(i) + " failed without a recorded violation"
 			if r.timedOut {
 				why = "shard " + strconv.Itoa(i) + " exceeded its time budget"
@@ -699,6 +711,35 @@ func run(id, tier, replay string) int {
 }
 
 var execsRe = regexp.MustCompile(`execs: (\d+)`)
+
+// libraryPanic returns the panic message and the first frames of the panicking
+// goroutine if a process log shows an unrecovered panic in a goroutine that has
+// frames of the library under test and none of the harness.
+func libraryPanic(log string) string {
+	i := strings.Index(log, "\npanic: ")
+	if i < 0 {
+		if !strings.HasPrefix(log, "panic: ") {
+			return ""
+		}
+		i = -1
+	}
+	rest := log[i+1:]
+	if strings.Contains(rest, "test timed out") {
+		return ""
+	}
+	j := strings.Index(rest, "\ngoroutine ")
+	if j < 0 {
+		return ""
+	}
+	g := rest[j+1:]
+	if k := strings.Index(g, "\n\n"); k > 0 {
+		g = g[:k]
+	}
+	if !strings.Contains(g, "github.com/biogo/hts/") || strings.Contains(g, "verif/") {
+		return ""
+	}
+	return head(rest[:j]+"\n"+g, 24)
+}
 
 // runFuzz runs one native fuzz target and returns the executions it reports and any new crasher inputs.
 func runFuzz(id, target, dur string) (uint64, [][]byte, string, error) {
